@@ -36,7 +36,9 @@ def arbiter_config(draw, max_n=6, min_n=1):
             "feat_style": draw(st.sampled_from(gens.FEATURE_STYLES)),
             "feat_tamper": draw(st.sampled_from(gens.FEATURE_TAMPER)),
             # every initiator interface created with the same path (identically named signals)
-            "same_path": draw(st.sampled_from([False, False, True]))}
+            "same_path": draw(st.sampled_from([False, False, True])),
+            # initiator interfaces are instances of a user subclass with value equality (all equal, same hash)
+            "eq_intrs": draw(st.sampled_from([False] * 5 + [True]))}
 
 
 def schedule_spec():
@@ -47,6 +49,16 @@ def schedule_spec():
         "hold": st.lists(st.integers(1, 6), min_size=8, max_size=8),
         "ack_bias": st.sampled_from([1, 2, 3]),
     })
+
+
+class EqInterface(wishbone.Interface):
+    """A user subclass of wishbone.Interface whose instances all compare equal and hash alike; the
+    arbiter deals with initiator *objects*."""
+    def __eq__(self, other):
+        return isinstance(other, EqInterface)
+
+    def __hash__(self):
+        return 17
 
 
 def build(cfg):
@@ -90,8 +102,9 @@ def build(cfg):
                 arb.ghost_accepted = True
     for i, s in enumerate(cfg["intrs"]):
         bad_adds(i)
-        f = wishbone.Interface(addr_width=cfg["aw"], data_width=cfg["dw"], granularity=s["g"],
-                               features=spell(s["feat"]), path=("intr",) if cfg.get("same_path") else (f"intr{i}",))
+        f = (EqInterface if cfg.get("eq_intrs") else wishbone.Interface)(
+            addr_width=cfg["aw"], data_width=cfg["dw"], granularity=s["g"],
+            features=spell(s["feat"]), path=("intr",) if cfg.get("same_path") else (f"intr{i}",))
         arb.add(f)
         intrs.append(f)
         if cfg.get("mid_elab") is not None and cfg["mid_elab"] == i:
@@ -270,6 +283,7 @@ def run_schedule(cfg, sched, stats, prop, check_bus, check_next):
     stats.label("features_one_shot_iterator", style in ("gen", "iter", "map") and bool(cfg["feat"]))
     stats.label("features_container_tampered", cfg.get("feat_tamper") is not None)
     stats.label("same_signal_names", bool(cfg.get("same_path")) and n >= 2)
+    stats.label("value_equal_initiators", bool(cfg.get("eq_intrs")) and n >= 2)
     stats.label("arbiter_has_lock", "lock" in feat)
     stats.label("arbiter_lacks_lock", "lock" not in feat)
     stats.label("mixed_granularity", any(s["g"] != cfg["g"] for s in cfg["intrs"]))
@@ -338,5 +352,60 @@ def transition_table(n, with_lock):
                         ctx.set(arb.bus.ack, 0)
                         apply(ctx, R, stb, lock, g)
                         table[(g, R, stb, lock, ack)] = await observe(ctx)
+    sim.simulate(top, tb)
+    return table
+
+
+def transition_samples(n, with_lock, owners, offsets):
+    """Like ``transition_table`` for arbiters too large to enumerate: for each owner g of ``owners``
+    and each other requester g+d (d in ``offsets``, cyclically), every owner stb/lock combination.
+    Returns {(g, R, stb, lock, 0): g'} with R as a bit mask."""
+    cfg = {"aw": 3, "dw": 8, "g": 8, "feat": ["lock"] if with_lock else [],
+           "intrs": [{"g": 8, "feat": ["lock"] if with_lock else []} for _ in range(n)]}
+    arb, intrs = build(cfg)
+    top = sim.wrap(arb)
+    table = {}
+    acks = Cat(*[f.ack for f in intrs])
+    state = [0] * n
+
+    def apply(ctx, cyc, stb=0, lock=0, g=None):
+        # only touch the initiators whose inputs change (hundreds of ctx.set per cycle are slow)
+        for i in set(k for k in range(n) if state[k]) | set(k for k in range(n) if (cyc >> k) & 1):
+            v = (cyc >> i) & 1
+            ctx.set(intrs[i].cyc, v)
+            ctx.set(intrs[i].stb, stb if i == g else 0)
+            if with_lock:
+                ctx.set(intrs[i].lock, lock if i == g else 0)
+            state[i] = v
+
+    async def observe(ctx):
+        ctx.set(arb.bus.ack, 1)
+        a = ctx.get(acks)
+        ctx.set(arb.bus.ack, 0)
+        who = [i for i in range(n) if (a >> i) & 1]
+        if len(who) != 1:
+            raise Violation("C09/table/owner-not-unique", f"N={n}: acknowledge reaches initiators {who}")
+        return who[0]
+
+    async def tb(ctx):
+        for g in owners:
+            for d in offsets:
+                o = (g + d) % n
+                if o == g:
+                    continue
+                for stb, lock in ([(0, 0), (1, 0), (0, 1)] if with_lock else [(1, 0), (0, 0)]):
+                    for R in ((1 << g) | (1 << o), 1 << o):
+                        if not (R >> g) & 1 and (stb or lock):
+                            continue
+                        apply(ctx, 1 << g)
+                        for _ in range(3):
+                            await ctx.tick()
+                            if await observe(ctx) == g:
+                                break
+                        else:
+                            raise Violation("C09/table/cannot-reach-owner", f"N={n} lock={with_lock}: asked for owner {g}")
+                        apply(ctx, R, stb, lock, g)
+                        await ctx.tick()
+                        table[(g, R, stb, lock, 0)] = await observe(ctx)
     sim.simulate(top, tb)
     return table
